@@ -106,6 +106,25 @@ bool guard(const char* path, int id, E const& e, F& f) {
   return r;
 }
 
+// behaviours of the row2 front-end that are member functions of a state: they get the event only (no fsm argument)
+template <class E>
+void cb_nf(const char* tag, const char* path, int id, E const& e) {
+  EvInfo i = info(e);
+  std::printf("%s %s %d e%d p%d w%d [?]\n", tag, lp(path).c_str(), id, i.ty, i.pay, i.wrapped);
+  int n = cbn()++;
+  auto it = plan().find(n);
+  if (it == plan().end()) return;
+  Cmd c = it->second;
+  if (c.kind == 't') { if (throwable(tag)) throw std::runtime_error("planned"); return; }
+  throw harness_error("a behaviour without fsm argument cannot submit events");
+}
+template <class E>
+bool guard_nf(const char* path, int id, E const& e) {
+  bool r = id < (int)val().size() && val()[id];
+  cb_nf(r ? "G1" : "G0", path, id, e);
+  return r;
+}
+
 // ---- operation loop ----
 inline void parse_val(std::istringstream& is) {
   val().assign(4096, false);
